@@ -60,6 +60,13 @@ type world struct {
 	prop string
 	// last is a short description of what the last operation did (event log).
 	last string
+	// opDesc names the operation being applied (available before it ends).
+	opDesc string
+	// touched: hashes of the transactions the current operation concerns
+	// (C10 asks for their details after every failed attempt); removedDesc:
+	// the operation removed a transaction together with descendants.
+	touched     []chainhash.Hash
+	removedDesc bool
 }
 
 var epoch = time.Date(2000, 1, 1, 0, 0, 0, 0, time.UTC)
@@ -79,6 +86,18 @@ func (w *world) count(name string) {
 }
 
 func (w *world) probe(name string) { w.count("probe." + name) }
+
+func (w *world) touch(hs ...chainhash.Hash) {
+	for _, h := range hs {
+		dup := false
+		for _, o := range w.touched {
+			dup = dup || o == h
+		}
+		if !dup && len(w.touched) < 12 {
+			w.touched = append(w.touched, h)
+		}
+	}
+}
 
 func (w *world) fail(prop, sig, format string, a ...any) {
 	if w.env != nil && w.prop == prop {
@@ -264,6 +283,8 @@ func (w *world) anyAmbiguous() bool {
 // precondition does not hold.
 func (w *world) apply(op core.Op) bool {
 	w.last = ""
+	w.opDesc = fmt.Sprintf("%s%v", op.K, op.A)
+	w.touched, w.removedDesc = w.touched[:0], false
 	switch op.K {
 	case "mem":
 		return w.opMem(op)
@@ -300,6 +321,7 @@ func (w *world) apply(op core.Op) bool {
 func (w *world) opMem(op core.Op) bool {
 	t := w.tx(op.Arg(0))
 	v := w.L.View()
+	w.touch(t.hash)
 	if lt := w.known(t); lt != nil {
 		// repeated announcement of something already known
 		if lt.Block != nil {
@@ -365,7 +387,11 @@ func (w *world) confirmOne(t *utx, blk ledger.Block) {
 			}
 		}
 	}
+	w.touch(t.hash)
 	for _, c := range v.Conflicts(t.msg) {
+		if c.Block == nil && v.DescendantDepth(c.Hash) >= 1 {
+			w.removedDesc = true
+		}
 		if c.Block == nil && v.DescendantDepth(c.Hash) >= 2 {
 			w.probe("conflict-removal-2-levels")
 		}
@@ -374,6 +400,7 @@ func (w *world) confirmOne(t *utx, blk ledger.Block) {
 		w.probe("reconnect-in-different-block")
 	}
 	res := w.L.Confirm(t.msg, t.credits, blk)
+	w.touch(res.Removed...)
 	if len(res.Removed) > 0 {
 		w.probe("conflict-removed-on-confirm")
 		if len(w.L.UnminedHashes()) > 0 {
@@ -495,6 +522,7 @@ func (w *world) opRollback(op core.Op) bool {
 		if t.Block.Height < height {
 			continue
 		}
+		w.touch(th)
 		for _, ci := range t.CreditIndexes() {
 			for _, s := range v.Spenders(wire.OutPoint{Hash: th, Index: ci}) {
 				if s.Block != nil {
@@ -596,6 +624,7 @@ func (w *world) opRedeliver(op core.Op) bool {
 	if lt == nil {
 		return false
 	}
+	w.touch(t.hash)
 	var blk *ledger.Block
 	if op.Arg(1)%2 == 1 && lt.Block != nil {
 		b := *lt.Block
@@ -635,8 +664,11 @@ func (w *world) opRBF(op core.Op) bool {
 	if !insertFirst {
 		w.L.InsertUnmined(t.msg, t.credits)
 	}
+	w.touch(t.hash)
+	w.touch(removed...)
 	if len(removed) > len(evict) {
 		w.probe("rbf-evicts-descendants")
+		w.removedDesc = true
 	}
 	w.removalProbes(removed)
 	if w.drv != nil {
@@ -653,7 +685,9 @@ func (w *world) opAbandon(op core.Op) bool {
 		return false
 	}
 	removed := w.L.RemoveUnmined(t.hash)
+	w.touch(removed...)
 	if len(removed) > 1 {
+		w.removedDesc = true
 		w.probe("abandon-with-descendants")
 	} else {
 		w.probe("abandon-without-descendants")
@@ -685,6 +719,7 @@ func (w *world) opLock(op core.Op) bool {
 	id := lockID(op.Arg(0), w.cfg.nids)
 	o := w.outpoint(op.Arg(1), op.Arg(2))
 	d := w.leaseDuration(op, 3, 4)
+	w.touch(o.Hash)
 	if w.cfg.subsec && w.ambiguous(o) {
 		return false
 	}
@@ -750,6 +785,7 @@ func (w *world) opLock(op core.Op) bool {
 func (w *world) opUnlock(op core.Op) bool {
 	id := lockID(op.Arg(0), w.cfg.nids)
 	o := w.outpoint(op.Arg(1), op.Arg(2))
+	w.touch(o.Hash)
 	if w.cfg.subsec && w.ambiguous(o) {
 		return false
 	}
